@@ -1,7 +1,7 @@
 CONSTANTS
-  MaxTracks = 1
-  MaxEvents = 3
-  Divs <- DivsQuick
+  MaxTracks = 2
+  MaxEvents = 2
+  Divs <- DivsFull
 INIT Init
 NEXT Next
 INVARIANTS RoundTrip Compression
